@@ -289,6 +289,28 @@ def bytesCursorInput : InputOps Bytes where
   onAlloc _ s := (.ok (), s)
   rawBytes := some sliceRead
 
+/-- `BytesCursor` with its position arithmetic (`src/codec.rs`): the shared buffer is kept whole and
+    a `position` runs over it; `read` copies `bytes[position .. position + n]`; the zero-copy hook
+    `scale_internal_decode_bytes` first drops the consumed prefix (`Buf::advance`, `position = 0`),
+    then checks the announced length against what is left and splits it off. -/
+def cursorInput : InputOps (Bytes × Nat) where
+  remainingLen s := (.ok (some (s.1.length - s.2)), s)
+  read n s :=
+    if n > s.1.length - s.2 then (.err, s)
+    else (.ok ((s.1.drop s.2).take n), (s.1, s.2 + n))
+  -- default `read_byte`: `read(&mut [0u8; 1])`
+  readByte s :=
+    match s.1.drop s.2 with
+    | [] => (.err, s)
+    | b :: _ => (.ok b, (s.1, s.2 + 1))
+  descend s := (.ok (), s)
+  ascend s := s
+  onAlloc _ s := (.ok (), s)
+  rawBytes := some fun n s =>
+    let rest := s.1.drop s.2          -- `advance(position); position = 0`
+    if n > rest.length then (.err, (rest, 0))
+    else (.ok (rest.take n), (rest.drop n, 0))   -- `split_to(length)`
+
 /-- `CountedInput` (`src/counted_input.rs`): state = inner state × counter (u64, saturating). -/
 def countedInput {σ : Type} (I : InputOps σ) : InputOps (σ × Nat) where
   remainingLen s := let (r, s1) := I.remainingLen s.1; (r, (s1, s.2))
